@@ -458,11 +458,18 @@ func reportHistoryProblem(c *Ctx, dr *Driver, im *Impl, lines []J, o *HistoryOut
 		c.Count("search-after-break:none")
 	}
 	kind := o.Kind
-	small := shrinkHistory(dr, im, lines[:o.Index+1], opts, kind)
-	o2 := runHistory(dr, im, small, opts)
-	if o2.Index < 0 || o2.Kind != kind {
-		small = lines[:o.Index+1]
-		o2 = *o
+	small := lines[:o.Index+1]
+	if !strings.Contains(o.Detail, "timeout") && !strings.Contains(o.Detail, "blocked") {
+		// (a history that ends in an operation that never returns is not shrunk: every candidate would cost a full deadline)
+		small = shrinkHistory(dr, im, lines[:o.Index+1], opts, kind)
+	}
+	o2 := *o
+	if !strings.Contains(o.Detail, "timeout") && !strings.Contains(o.Detail, "blocked") {
+		o2 = runHistory(dr, im, small, opts)
+		if o2.Index < 0 || o2.Kind != kind {
+			small = lines[:o.Index+1]
+			o2 = *o
+		}
 	}
 	rep := &Replay{Backend: be, Stream: "history", Case: toIfaces(small), FirstDivergence: o2.Index, ShrunkFrom: o.Index + 1, Note: o2.Kind + ": " + o2.Detail}
 	if n := len(o2.Results); n > 0 {
